@@ -386,9 +386,11 @@ def to_vector(c):
         # already labelled: keep the labels (and the object itself when it
         # is of unit length already), but still normalize
         labels = list(np.atleast_1d(c[vector].values))
-        if labels != ['x', 'y', 'z'] and sorted(labels) == ['x', 'y', 'z']:
+        if (labels not in (['x', 'y', 'z'], ['x', 'y']) and
+                set(labels) <= {'x', 'y', 'z'} and
+                len(set(labels)) == len(labels)):
             # the theories read the components by position
-            c = c.sel({vector: ['x', 'y', 'z']})
+            c = c.reindex({vector: ['x', 'y', 'z']}, fill_value=0)
         norm = np.sqrt((c**2).sum(vector))
         if bool((norm == 1).all()):
             return c
